@@ -7,23 +7,23 @@ import (
 
 // scenOpts bounds what the Failover scenario generator may produce.
 type scenOpts struct {
-	maxKeys      int
-	minGets      int
-	maxGets      int
-	skipRead     bool
-	callerTTLs   []time.Duration
-	faults       int
-	clock        int
-	external     int
-	forceCfg     func(cfg *foCfg)
-	initStates   []int // allowed initial key states
-	prefail      bool  // may pre-populate the failure cache
-	postActions  bool  // generated post-return actions (buffer overwrite with another key, cancel)
-	builderTTL   bool
-	ttlCells     bool // caller may pass an explicit zero TTL cell; contexts may carry deadlines / be cancelled early
-	failPct      int
-	keys         [][]byte // key alphabet (default scenKeys)
-	errKinds     bool     // failing builders may return errors wrapping context / cache sentinel errors
+	maxKeys     int
+	minGets     int
+	maxGets     int
+	skipRead    bool
+	callerTTLs  []time.Duration
+	faults      int
+	clock       int
+	external    int
+	forceCfg    func(cfg *foCfg)
+	initStates  []int // allowed initial key states
+	prefail     bool  // may pre-populate the failure cache
+	postActions bool  // generated post-return actions (buffer overwrite with another key, cancel)
+	builderTTL  bool
+	ttlCells    bool // caller may pass an explicit zero TTL cell; contexts may carry deadlines / be cancelled early
+	failPct     int
+	keys        [][]byte // key alphabet (default scenKeys)
+	errKinds    bool     // failing builders may return errors wrapping context / cache sentinel errors
 }
 
 const (
@@ -62,13 +62,13 @@ func (cfg foCfg) clockMenu() []time.Duration {
 }
 
 type scenario struct {
-	keys   [][]byte // key alphabet of the scenario (scenKeys unless overridden)
-	cfg    foCfg
-	nkeys  int
-	states []int
-	ages   []time.Duration
+	keys    [][]byte // key alphabet of the scenario (scenKeys unless overridden)
+	cfg     foCfg
+	nkeys   int
+	states  []int
+	ages    []time.Duration
 	prefail []bool
-	gets   []*getSpec
+	gets    []*getSpec
 }
 
 func drawScenario(c *Case, o scenOpts) *scenario {
